@@ -24,6 +24,7 @@ META = {
                      "C02 (cbor_bstr yields the stored bytes) and C11 R-3"],
 }
 META["decides"] += ' (As built: R-2 re-checks the header encoder table, which is what a built protected header contributes; see C03 - decided per public entry point on the all-inlined view.)'
+META["decides"] += ' R-2 also: map form of ProtectedHeader, un-overridden byte-level API; R-3 also: derived Clone, arguments not edited in place.'
 
 
 def check(ctx):
